@@ -420,7 +420,7 @@ impl Prop for C18 {
     }
     fn cases(&self, tier: Tier) -> u64 {
         match tier {
-            Tier::Quick => 1_200,
+            Tier::Quick => 5_000,
             Tier::Thorough => 40_000,
         }
     }
